@@ -247,3 +247,122 @@ func ReflectMapKeys(v reflect.Value) []reflect.Value { return orderReflectKeys(v
 func (it *MapIter) Next() bool           { it.i++; return it.i < len(it.keys) }
 func (it *MapIter) Key() reflect.Value   { return it.keys[it.i] }
 func (it *MapIter) Value() reflect.Value { return it.m.MapIndex(it.keys[it.i]) }
+
+// AfterFunc --------------------------------------------------------------------------------------
+// time.AfterFunc runs its callback on a goroutine of the runtime's own making when the (fake) clock reaches the
+// deadline. Here that goroutine registers itself with the scheduler and parks: the callback then runs as a simulator
+// task like any other, a pending timer keeps the run from being taken for quiescent, and Stop / Reset (rewritten by
+// simgen for every *time.Timer) keep the books.
+
+type afterRec struct {
+	seq     uint64
+	parent  *Task
+	f       func()
+	pending bool // armed and not yet fired: counted in s.inReal
+}
+
+type afterFire struct {
+	rec  *afterRec
+	gate chan struct{}
+	task *Task
+}
+
+func AfterFunc(d time.Duration, f func()) *time.Timer {
+	s := cur
+	if s == nil || s.dead || s.current == nil {
+		return time.AfterFunc(d, f)
+	}
+	point()
+	s.afterSeq++
+	rec := &afterRec{seq: s.afterSeq, parent: s.current, f: f, pending: true}
+	s.inReal++
+	tm := time.AfterFunc(d, func() { s.timerFired(rec) })
+	if s.afters == nil {
+		s.afters = map[*time.Timer]*afterRec{}
+	}
+	s.afters[tm] = rec
+	return tm
+}
+
+// timerFired runs on the runtime's goroutine, concurrently with the scheduler (which is advancing the clock).
+func (s *Sim) timerFired(rec *afterRec) {
+	if s.dead {
+		return
+	}
+	fr := &afterFire{rec: rec, gate: make(chan struct{})}
+	s.wmu.Lock()
+	s.fired = append(s.fired, fr)
+	s.wmu.Unlock()
+	select {
+	case s.sig <- struct{}{}:
+	default:
+	}
+	<-fr.gate
+	if s.dead {
+		return
+	}
+	t := fr.task
+	defer func() {
+		if r := recover(); r != nil {
+			if !s.dead {
+				s.taskPanicked(t, r)
+			}
+		}
+		t.state = stDone
+	}()
+	rec.f()
+}
+
+// adoptFired turns the callbacks of fired timers into runnable tasks (scheduler side, after synctest.Wait).
+func (s *Sim) adoptFired() {
+	s.wmu.Lock()
+	fs := s.fired
+	s.fired = nil
+	s.wmu.Unlock()
+	if len(fs) == 0 {
+		return
+	}
+	sort.Slice(fs, func(i, j int) bool { return fs[i].rec.seq < fs[j].rec.seq })
+	for _, fr := range fs {
+		t := s.newTask(fr.rec.parent, "afterfunc")
+		t.gate = fr.gate
+		t.state = stRunnable
+		fr.task = t
+		if fr.rec.pending {
+			fr.rec.pending = false
+			s.inReal--
+		}
+	}
+}
+
+// TimerStop is (*time.Timer).Stop.
+func TimerStop(tm *time.Timer) bool {
+	s := cur
+	if s == nil || s.dead || s.current == nil || s.afters[tm] == nil {
+		return tm.Stop()
+	}
+	point()
+	rec := s.afters[tm]
+	ok := tm.Stop()
+	if ok && rec.pending {
+		rec.pending = false
+		s.inReal--
+	}
+	return ok
+}
+
+// TimerReset is (*time.Timer).Reset.
+func TimerReset(tm *time.Timer, d time.Duration) bool {
+	s := cur
+	if s == nil || s.dead || s.current == nil || s.afters[tm] == nil {
+		return tm.Reset(d)
+	}
+	point()
+	rec := s.afters[tm]
+	active := tm.Reset(d)
+	if !rec.pending {
+		rec.pending = true
+		s.inReal++
+	}
+	return active
+}
